@@ -66,6 +66,11 @@ func PrivateHelper(g *ssa.Function) bool {
 	if !obj.Exported() {
 		return true
 	}
+	// an exported free function that a later edit introduced (`ParseAddress`, which a validator now
+	// delegates to): part of the change under analysis, read like the helper it is for its callers here
+	if sig, ok := obj.Type().(*types.Signature); ok && sig.Recv() == nil && NewDeclHook(obj) {
+		return true
+	}
 	// a capitalised method on an unexported type that a later edit introduced (a phase of
 	// some function moved into `state.Collect(…)`): as private as its receiver
 	if sig, ok := obj.Type().(*types.Signature); ok && sig.Recv() != nil && NewDeclHook(obj) {
